@@ -467,6 +467,20 @@ class Unit:
                 lines.append('}')
                 self.out.add('\n'.join(lines), {'k': 'lit'})
                 self.trusted.append('A-flags: OpFlags accessor values are uninterpreted here (%d accessors found); OpFlags::new is the subject of unit op_flags' % len(fns))
+            elif cmd == 'masm-lemmas':
+                import e2gen
+                try:
+                    text, index, info = e2gen.generate(arg, self.repo, self.verif)
+                except e2gen.E2Error as e:
+                    raise WeaveError('E2: %s' % e)
+                tl = text.split('\n')
+                for name, off, n in index:
+                    for ln in tl[off:off + n]:
+                        self.out.lines.append(ln)
+                        self.out.origin.append({'k': 'contract', 'item': 'masm::' + name, 'sec': 'lemma', 'idx': 0, 'text': ln.strip()})
+                    self.items.append({'label': 'masm::' + name, 'file': arg, 'kind': 'masm-lemma', 'sha': '', 'contracted': True})
+                self.e2_info = getattr(self, 'e2_info', []) + info
+                self.clauses += len(index)
             elif cmd == 'body-prelude':
                 self.body_prelude.append(arg)
             elif cmd == 'body-prelude-off':
